@@ -279,10 +279,9 @@ RecoveredOK(e) ==
 
 ADev(e) ==
   CASE e.ev = "ReadR" ->      \* C02/C03: exactly the snapshot taken at the begin of the reader
-         F("C03", "ReadR", e.r \in DOMAIN rds =>
-              IF e.id \in DOMAIN rds[e.r].pages
-                THEN e.err = "" /\ MatchPage(e.q, rds[e.r].pages[e.id])
-                ELSE e.err # "")
+         \* (reading a page id that is not part of the snapshot is not constrained)
+         F("C03", "ReadR", (e.r \in DOMAIN rds /\ e.id \in DOMAIN rds[e.r].pages) =>
+              (e.err = "" /\ MatchPage(e.q, rds[e.r].pages[e.id])))
     [] e.ev = "ReadW" ->      \* C03: own writes, else committed
          F("C03", "ReadW", tx # NoTx =>
               IF e.id \in TxLive
